@@ -113,9 +113,9 @@ class AffineTransform(Generic[T], Transform[T, T]):
                 idx = np.nonzero(x.ndata[x.names.pid] == -1)[0][0].item()
                 xyz = x.xyz()[idx]
                 tm = (
-                    translate3d(-xyz[0], -xyz[1], -xyz[2])
+                    translate3d(xyz[0], xyz[1], xyz[2])
                     .dot(self.tm)
-                    .dot(translate3d(xyz[0], xyz[1], xyz[2]))
+                    .dot(translate3d(-xyz[0], -xyz[1], -xyz[2]))
                 )
             case _:
                 tm = self.tm
